@@ -169,6 +169,19 @@ class Ctx:
             self._astq = run_astq(self.repo, self.th)
             if self._astq.get('errors'):
                 raise Incomplete('astq could not parse: ' + json.dumps(self._astq['errors'])[:500])
+            # nested fn items are evaluated separately by astq; expose them as functions of the same file
+            todo = list(self._astq['functions'])
+            while todo:
+                f = todo.pop()
+                for l in f.get('lets', []):
+                    n = l.get('nested_fn')
+                    if n:
+                        n['file'] = f['file']
+                        n['mod'] = f.get('mod', '')
+                        n['qual'] = f['qual'] + '::' + n['name']
+                        n['nested_in'] = f['qual']
+                        self._astq['functions'].append(n)
+                        todo.append(n)
         return self._astq
 
     def mirq(self, features='all'):
